@@ -134,7 +134,13 @@ func CheckC14(tier string, seed uint64, rep *core.Reporter) (*core.Evidence, err
 		}
 		c := c14Case{Dir: d, History: history, Binary: binary, Map: mapDesc, Cwd: cwd, Exit: res.Exit, Equal: true}
 		replay := map[string]any{"dir": d, "history": history, "binary": binary, "map": mapDesc, "cwd": cwd}
-		if res.TimedOut || res.Exit != 0 {
+		if res.TimedOut {
+			if infraErr == nil {
+				infraErr = Infra("wall-clock watchdog expired while regenerating %s (not a verdict about lox)", d)
+			}
+			return
+		}
+		if res.Exit != 0 {
 			c.Equal = false
 			rep.Report(core.Signature{"class": "regeneration-failed", "dir": d},
 				fmt.Sprintf("history %s (%s, map %s, cwd %s): exit %d\nstderr: %s", history, binary, mapDesc, cwd, res.Exit, tail(res.Stderr, 800)), replay)
